@@ -27,6 +27,8 @@ pub const PROBLEMS: &[(&str, &str, usize)] = &[
     ("choice", "c:\n  type: variant\n  init: a\n  a:\n    type: const\n  b:\n    type: enum\n    values: [p, q, r]\n    init: p\n", 200),
     // the optimum is 1e5 step scales away from the initial value: reached only if the mutation scale adapts upwards
     ("far", "x:\n  type: real\n  init: 100000.0\n  scale: 1.0\n", 3000),
+    // needs steps many orders of magnitude below the spec scale: reached only if the mutation scale adapts downwards
+    ("precise", "x:\n  type: real\n  init: 5.0\n  scale: 1.0\n", 2500),
 ];
 
 pub fn objective(prob: usize, v: &J) -> f64 {
@@ -62,6 +64,10 @@ pub fn objective(prob: usize, v: &J) -> f64 {
         9 => {
             let x = v["x"].as_f64().unwrap();
             x * x
+        }
+        10 => {
+            let x = v["x"].as_f64().unwrap();
+            (x - 1.234) * (x - 1.234)
         }
         _ => match &v["c"] {
             J::Object(m) => match m.get("b") {
